@@ -170,6 +170,7 @@ pub struct KeyExec<C: KeyColl> {
     pub since_snap: usize,
     pub opcount: u64,
     pub ever_inserted: bool,
+    last_op_code: u64,
     log: Vec<CbEvent>,
 }
 
@@ -187,6 +188,7 @@ impl<C: KeyColl> KeyExec<C> {
             since_snap: 0,
             opcount: 0,
             ever_inserted: false,
+            last_op_code: 0,
             log: Vec::new(),
         }
     }
@@ -206,6 +208,7 @@ impl<C: KeyColl> KeyExec<C> {
             since_snap: self.since_snap,
             opcount: self.opcount,
             ever_inserted: self.ever_inserted,
+            last_op_code: 0,
             log: Vec::new(),
         })
     }
@@ -310,6 +313,7 @@ impl<C: KeyColl> KeyExec<C> {
         self.since_snap = 0;
         self.last_buf_len = s.slots.len();
         rep.counters.inc("snapshots_checked");
+        rep.evaluations += 1;
         if mon.structure {
             match snap::check_structure(&s, |p| p.0 as i64) {
                 Ok(info) => {
@@ -359,6 +363,7 @@ impl<C: KeyColl> KeyExec<C> {
                 _ => continue,
             };
             rep.counters.inc("cb_compare_calls_observed");
+            rep.evaluations += 1;
             for a in args {
                 if a.2 == serial {
                     continue;
@@ -376,6 +381,9 @@ impl<C: KeyColl> KeyExec<C> {
             }
         }
         self.log = log;
+        if self.live_count(t) >= 2 {
+            rep.case(mix(self.model_hash(t), mix(0xC20, self.last_op_code)));
+        }
         res
     }
 
@@ -453,6 +461,7 @@ impl<C: KeyColl> KeyExec<C> {
 
     pub fn step(&mut self, op: &KOp, mon: &KMon, rep: &mut Report) -> Result<Obs, Fail> {
         self.opcount += 1;
+        self.last_op_code = op.code();
         if self.sut.is_none() {
             return Err(Fail::new("HARNESS:consumed", "operation after export"));
         }
